@@ -23,7 +23,8 @@ ASSUMPTIONS = ["outside the statement's domain (digits, single-letter words, mix
 ANCHORS = ['field:rename_field', 'field:_split_field_name', 'field:Field.make' if False else 'field:FieldSpec.make_field', 'classes:PaneBase.dict']
 EXHAUSTIVE_WHOLE = False
 MIN_COUNTERS = {'quick': {'contract_evaluations': 200000, 'evaluations_via_pane.field': 1000, 'evaluations_via_pane.classes': 200,
-                          'malformed_names_checked': 300, 'end_to_end_classes': 100}}
+                          'malformed_names_checked': 300, 'end_to_end_classes': 100, 'styled_attribute_dict_renames': 400,
+                          'malformed_field_names_end_to_end': 1000}}
 
 STYLES = ('snake', 'scream', 'kebab', 'camel', 'pascal')
 DOMAIN = re.compile(r'^[a-z]{2,}(_[a-z]{2,})*$')
@@ -304,6 +305,53 @@ def run(ctx):
                                   mech=f"e2e-mixin-first-loses-style:{st}")
             else:
                 ctx.violation('rename-laws', 'e2e', k, {'bases': ['PlainMixin', 'styled parent'], 'class_creation': mk3.brief()}, mech='e2e-mixin-first-class-creation')
+
+    # ---- attribute names that are themselves styled (mirroring an external schema); names that cannot be split, at every place
+    # pane itself renames: the class statement (rename / in_rename / out_rename) and dict(rename=), 'snake' included
+    ATTR_STYLES = ('snake', 'scream', 'camel', 'pascal')
+    for k in range(6):
+        rng = ctx.rng('e2e-styled-attrs', k)
+        words = rng.sample([p_ for p_ in pool if '_' in p_], 3)
+        attrs = [canonical(w, rng.choice(ATTR_STYLES)) for w in words]
+        if len(set(attrs)) != 3:
+            continue
+        mk = observe(lambda: type(f"RA{next(_serial)}", (env.PaneBase,), {'__annotations__': {a: int for a in attrs}, '__module__': __name__}))
+        ctx.count('end_to_end_styled_attribute_classes')
+        if mk.kind != 'value':
+            ctx.violation('rename-laws', 'e2e', k, {'fields': attrs, 'class_creation': mk.brief()}, mech='e2e-styled-attrs-class-creation')
+            continue
+        inst = mk.val(1, 2, 3)
+        for st2 in STYLES:
+            want = [canonical(w, st2) for w in words]
+            for set_only in (False, True):
+                dd = observe(inst.dict, set_only=set_only, rename=st2)
+                ctx.count('styled_attribute_dict_renames')
+                # (the set-only view is built from a set: its key order is not part of any promise)
+                if dd.kind != 'value' or (sorted(dd.val.keys()) != sorted(want) if set_only else list(dd.val.keys()) != want):
+                    ctx.violation('rename-laws', 'e2e', k, {'fields': attrs, 'style': st2, 'set_only': str(set_only), 'dict(rename=)': dd.brief(), 'expected_keys': want},
+                                  mech=f"e2e-styled-attrs-dict-rename:{st2}")
+                    break
+            mk2 = observe(lambda: type(f"RA{next(_serial)}", (mk.val,), {'__module__': __name__}, rename=st2))
+            d2 = observe(lambda: mk2.val(1, 2, 3).into_data()) if mk2.kind == 'value' else mk2
+            if d2.kind != 'value' or list(d2.val.keys()) != want:
+                ctx.violation('rename-laws', 'e2e', k, {'fields': attrs, 'child_style': st2, 'into_data': d2.brief(), 'expected_keys': want}, mech=f"e2e-styled-attrs-subclass:{st2}")
+    for bad in ('foo__bar', 'foo_', '_foo', 'ab___cd', 'ab_cd__ef'):
+        plain = type(f"RB{next(_serial)}", (env.PaneBase,), {'__annotations__': {bad: int, 'fine_name': int}, bad: 0, 'fine_name': 1, '__module__': __name__})
+        for st in STYLES:
+            for set_only in (False, True):
+                o = observe(plain(**{bad: 1}).dict, set_only=set_only, rename=st)
+                ctx.count('malformed_names_checked')
+                ctx.count('malformed_field_names_end_to_end')
+                if o.kind != 'escape' or not isinstance(o.exc, ValueError):
+                    ctx.violation('malformed-names-refused', 'malformed', -1, {'field': bad, 'call': f"dict(set_only={set_only}, rename={st!r})", 'outcome': o.brief()},
+                                  mech=f"malformed-field-name-not-refused-with-ValueError:dict:{st}")
+            for opts in ({'rename': st}, {'out_rename': st}, {'in_rename': st}, {'in_rename': ('snake', st)}):
+                o = observe(lambda: type(f"RB{next(_serial)}", (env.PaneBase,), {'__annotations__': {'fine_name': int, bad: int}, '__module__': __name__}, **opts))
+                ctx.count('malformed_names_checked')
+                ctx.count('malformed_field_names_end_to_end')
+                if o.kind != 'escape' or not isinstance(o.exc, ValueError):
+                    ctx.violation('malformed-names-refused', 'malformed', -1, {'field': bad, 'class_options': str(opts), 'outcome': o.brief()},
+                                  mech=f"malformed-field-name-not-refused-with-ValueError:class:{'/'.join(opts)}")
 
     # ---- thorough: sampled names over the whole alphabet -------------------------------------------------------------------------
     if ctx.tier == 'thorough':
